@@ -40,7 +40,7 @@ def one(sid):
             res["error"] = "build: " + out[-200:]
             return res
         t0 = time.time()
-        p = subprocess.run(["/verif/check", prop, "quick"], cwd="/verif", env=dict(env, VERIF_REPO=wt), stdout=subprocess.PIPE, stderr=subprocess.STDOUT, text=True, timeout=7200)
+        p = subprocess.run(["/verif/check", prop, meta.get("check_tier", "quick")], cwd="/verif", env=dict(env, VERIF_REPO=wt), stdout=subprocess.PIPE, stderr=subprocess.STDOUT, text=True, timeout=7200)
         res["check_exit"] = p.returncode
         res["verdict"] = {0: "MISSED", 1: "DETECTED", 2: "INCONCLUSIVE"}.get(p.returncode, str(p.returncode))
         res["keys"] = sorted(set(re.findall(r"key=(\S+)", p.stdout)))[:8]
